@@ -76,6 +76,7 @@ impl<T> RawTable<T> {
     pub fn growth_left(&self) -> usize { self.i.growth_left }
     pub fn len(&self) -> usize { self.i.items }
     pub fn capacity(&self) -> usize { self.i.items + self.i.growth_left }
+    pub fn buckets(&self) -> usize { self.i.nslots + (self.i.nslots > 0) as usize }
     fn find_index(&self, hash: u64, mut eq: impl FnMut(&T) -> bool) -> Option<usize> {
         let mut i = 0;
         while i < MAXCAP {
